@@ -61,8 +61,9 @@ def main():
     with ThreadPoolExecutor(max_workers=4) as ex:
         res = list(ex.map(one_property, sorted(by.items())))
     rows = [r for rs in res for r in rs]
-    with open(os.path.join(VERIF, "seeded", "REGRESSION.md"), "w") as f:
-        f.write("# Seeded changes re-run against the checks as they are now\n\nrun of %s, quick tier, seed 0; produced by tools/regress_seeded.py\n\n"
+    seed = os.environ.get("VERIF_SEED", "0")
+    with open(os.path.join(VERIF, "seeded", "REGRESSION.md" if seed == "0" else "REGRESSION_seed%s.md" % seed), "w") as f:
+        f.write("# Seeded changes re-run against the checks as they are now\n\nrun of %s, quick tier, seed " + seed + "; produced by tools/regress_seeded.py\n\n"
                 "| seeded change | property | verdict of the property's own check | other checks named in meta.json |\n|---|---|---|---|\n" % time.strftime("%Y-%m-%d %H:%M"))
         for r in rows:
             f.write("| %s | %s | %s | %s |\n" % r)
